@@ -97,14 +97,14 @@ Rel(op, a, b) == CASE op = "<" -> a < b [] op = "<=" -> a <= b [] op = ">" -> a 
 KeyIdx(v, key) == IF \E i \in 1..Len(v.ks) : ScalarEq(v.ks[i], key)
                   THEN CHOOSE i \in 1..Len(v.ks) : ScalarEq(v.ks[i], key) ELSE 0
 
-RECURSIVE Match(_, _), MatchAll(_, _, _), MatchEntries(_, _, _), MatchAttrs(_, _, _)
+RECURSIVE Match(_, _), MatchAll(_, _, _), MatchEntries(_, _, _, _), MatchAttrs(_, _, _)
 
-(* what a key pattern element sees when the key is missing *)
-Missing(p, v) ==
-  IF "map_missing_key_undefined" \in Deviations /\ v.k = "map"
-  THEN Match(p, UndefV)                        \* DEVIATION: HashMap subscript leaks `undefined`
-  ELSE IF "map_missing_key_undefined" \in Deviations /\ v.k = "record"
-  THEN Match(p, NilV)                          \* (the real HashRecord subscript yields nil)
+(* what a key pattern element sees when the key is missing (pk = "map" | "record": the pattern) *)
+Missing(p, v, pk) ==
+  IF "map_missing_key_undefined" \in Deviations
+  THEN IF pk = "map" THEN Match(p, UndefV)     \* DEVIATION: the typed HashMap subscript a map pattern
+                                               \* compiles to leaks the internal `undefined`
+       ELSE Match(p, NilV)                     \* (a record pattern calls `[]`, which yields nil)
   ELSE IF MissingKey = "nil" THEN Match(p, NilV) ELSE No
 
 Match(p, v) ==
@@ -128,7 +128,7 @@ Match(p, v) ==
                               ELSE <<[n |-> p.restn, v |-> ListV(SubSeq(v.es, a + 1, n - z))]>>
                    IN IF ra.ok /\ rz.ok THEN Ok(ra.b \o mid \o rz.b) ELSE No
     [] p.k \in {"map", "record"} ->
-         IF IsA(v, IF p.k = "map" THEN "Map" ELSE "Record") THEN MatchEntries(p.es, v, 1) ELSE No
+         IF IsA(v, IF p.k = "map" THEN "Map" ELSE "Record") THEN MatchEntries(p.es, v, 1, p.k) ELSE No
     [] p.k = "as"     -> LET r == Match(p.p, v) IN
                          IF r.ok THEN Ok(r.b \o <<[n |-> p.n, v |-> v]>>) ELSE No
     [] p.k = "or"     -> LET l == Match(p.l, v) IN IF l.ok THEN l ELSE Match(p.r, v)
@@ -146,12 +146,12 @@ MatchAll(ps, vs, j) ==
        ELSE LET rs == MatchAll(ps, vs, j + 1) IN IF rs.ok THEN Ok(r.b \o rs.b) ELSE No
 
 (* map / record pattern elements [key, p] *)
-MatchEntries(es, v, j) ==
+MatchEntries(es, v, j, pk) ==
   IF j > Len(es) THEN Ok(<<>>)
   ELSE LET i == KeyIdx(v, es[j].key)
-           r == IF i = 0 THEN Missing(es[j].p, v) ELSE Match(es[j].p, v.vs[i]) IN
+           r == IF i = 0 THEN Missing(es[j].p, v, pk) ELSE Match(es[j].p, v.vs[i]) IN
        IF ~r.ok THEN No
-       ELSE LET rs == MatchEntries(es, v, j + 1) IN IF rs.ok THEN Ok(r.b \o rs.b) ELSE No
+       ELSE LET rs == MatchEntries(es, v, j + 1, pk) IN IF rs.ok THEN Ok(r.b \o rs.b) ELSE No
 
 (* object pattern attributes [a, p]: p against the value of getter a *)
 MatchAttrs(as, v, j) ==
